@@ -24,6 +24,7 @@ DATATYPES_UNKNOWN = [
     "dtnosep", "http://ex.org/dt/é",
 ]
 BNODES = ["b0", "b1", "b2", "b3", "n-4", "B5"]
+BNODES_GEN = BNODES + ["", "b é"]      # generic API only: any string is a label
 
 
 def rng_for(*parts: Any) -> random.Random:
@@ -50,7 +51,8 @@ class Vocab:
         self.locals = rng.sample(LOCALS, min(n_local, len(LOCALS)))
         self.extra_locals = [f"k{i}" for i in range(rng.choice([0, 0, 5, 30, 150]))]
         dts = rng.sample(DATATYPES_UNKNOWN, min(n_dt, len(DATATYPES_UNKNOWN)))
-        self.datatypes = dts + [XSD_STRING] + ([XSD + "integer"] if rng.random() < .5 else [])
+        self.datatypes = dts + [XSD_STRING] + ([XSD + "integer"] if rng.random() < .5 else []) + \
+            ([XSD + "boolean"] if rng.random() < .4 else [])
         self.langs = LANGS_11 if mode == "rdf11" else LANGS_GEN
         self.p_sepless = rng.choice([0.0, 0.1, 0.3])
         self.hot = rng.random() < 0.5
@@ -75,7 +77,7 @@ class Vocab:
         return ("iri", ns + loc)
 
     def bnode(self) -> tuple:
-        return ("bnode", self.rng.choice(BNODES))
+        return ("bnode", self.rng.choice(BNODES if self.mode == "rdf11" else BNODES_GEN))
 
     def literal(self) -> tuple:
         r = self.rng
@@ -87,7 +89,9 @@ class Vocab:
             return ("lit", lex, r.choice(self.langs), None)
         dt = self._pick(self.datatypes)
         if dt == XSD + "integer":
-            lex = r.choice(["0", "1", "42", "-7"])
+            lex = r.choice(["0", "0", "1", "42", "-7"])
+        elif dt == XSD + "boolean":
+            lex = r.choice(["false", "false", "true"])
         return ("lit", lex, None, dt)
 
     def quoted(self, depth: int) -> tuple:
